@@ -419,6 +419,7 @@ def annotate_closures(sf, ed, spec, lo, hi, used):
             if a is not None:
                 nhints[a[0]] = (key, a[1])
     matched = set()
+    unspecified = []    # closures of the range that get no contract (no hint, no derived one)
     for (po, pc, b0, b1, is_block) in find_closures(sf, lo, hi):
         texts = tuple(t.text for t in st[po:b1 + 1])
         key = hints.get(texts)
@@ -444,8 +445,10 @@ def annotate_closures(sf, ed, spec, lo, hi, used):
             if len(ops) == 1 and all(SIMPLE_TOK.match(tx) for k, tx in enumerate(body) if k != ops[0]) and ops[0] not in (0, len(body) - 1):
                 ed.ins(st[pc].end, ' -> (auto_r: bool) ensures auto_r == (%s) ' % sf.src[st[b0].start:st[b1].end])
             else:
+                unspecified.append(sf.src[st[po].start:st[b1].end])
                 continue
         else:
+            unspecified.append(sf.src[st[po].start:st[b1].end])
             continue
         if not is_block:
             ed.ins(st[b0].start, '{ ')
@@ -456,6 +459,12 @@ def annotate_closures(sf, ed, spec, lo, hi, used):
             # the closure this contract was written for is gone or has changed: without its contract the enclosing
             # function cannot be decided (a failed proof would not mean anything)
             raise ExtractError('%s: closure hint <<%s>> matches no closure (anchor lost)' % (spec.path, key[1]))
+        if key not in matched and unspecified:
+            # optional hint: fine if the closure is GONE (replaced by closure-free code, which the verifier then sees in
+            # full); if the range holds a closure without any contract instead, that may be the rewritten closure: its
+            # result would be unconstrained and a failed proof would not mean anything
+            raise ExtractError('%s: optional closure hint <<%s>> matches no closure while %d closure(s) of the range have no contract, e.g. `%s` (anchor lost)'
+                               % (spec.path, key[1], len(unspecified), unspecified[0][:60]))
 
 
 IDENT_ONLY = re.compile(r'^[A-Za-z_][A-Za-z0-9_]*$')
